@@ -118,7 +118,7 @@ T_Post ==
     /\ IF tcur.op = "build" /\ vres = "err" /\ ~ObsPrev(E)
          THEN Bad("build returned Err but dest changed") ELSE TRUE
     \* D-conjuncts
-    /\ IF tcur.op = "compact" /\ vres = "err" /\ ~ObsPrev(E)
+    /\ IF tcur.op # "build" /\ vres = "err" /\ ~ObsPrev(E)
          THEN Drift("compact returned Err after its commit point") ELSE TRUE
     /\ IF vres = "ok" /\ ~ObsComplete(E) /\ ObsPrev(E)
          THEN Drift("Ok returned but dest is still the previous file") ELSE TRUE
